@@ -123,6 +123,44 @@ def run_row(item):
     # truncation: every CutStep-th prefix
     ast = r["ast"]
     text, marks = render_marks(ast)
+
+    def media_kids(m, start):
+        """absolute end offsets of the rules nested in the @media rule m rendered at offset start (same layout as rule_text)"""
+        t = "@media " + ", ".join(m["queries"]) + " {"
+        kids = []
+        for x in m["rules"]:
+            t += " "
+            kstart = start + len(t)
+            t += sheetast.rule_text(x, V)
+            kids.append({"ast": x, "start": kstart, "end": start + len(t)})
+        t += " }"
+        assert t == sheetast.rule_text(m, V), (t, sheetast.rule_text(m, V))
+        return kids
+
+    def nested_levels(k):
+        """for every @media rule that is open at cut k (at any depth): the rules nested in it that are complete before the cut"""
+        levels = []
+        for i, m in enumerate(marks):
+            if ast[i]["k"] == "media" and m["start"] < k < m["end"]:
+                path, node, start = [i], ast[i], m["start"]
+                while True:
+                    kids = media_kids(node, start)
+                    levels.append({"path": list(path), "complete": [c["ast"] for c in kids if c["end"] <= k]})
+                    inner = [(j, c) for j, c in enumerate(kids) if c["ast"]["k"] == "media" and c["start"] < k < c["end"]]
+                    if not inner:
+                        break
+                    j, c = inner[0]
+                    path.append(j)
+                    node, start = c["ast"], c["start"]
+        return levels
+
+    def rules_at(dom, path):
+        cur = dom
+        for n, i in enumerate(path):
+            if i >= len(cur) or cur[i].get("k") != "media":
+                return []
+            cur = cur[i]["rules"]
+        return cur
     cuts = []
     for k in range(0, len(text) + 1, r["step"]):
         complete = [ast[i] for i, m in enumerate(marks) if m["end"] <= k]
@@ -132,7 +170,9 @@ def run_row(item):
             i = openr[0]
             open_decls = [d for d, e in zip(ast[i]["body"], marks[i]["decl_ends"]) if e <= k]
         out, dom = outcome(lambda: sheetast.project(sheetast.parse(text[:k])))
-        cuts.append({"k": k, "out": out, "complete": complete, "open": open_decls, "dom": dom if out == "ok" else [], "prefix": text[:k][-40:]})
+        nested = [{"complete": lv["complete"], "got": rules_at(dom, lv["path"]) if out == "ok" else []} for lv in nested_levels(k)]
+        cuts.append({"k": k, "out": out, "complete": complete, "open": open_decls, "dom": dom if out == "ok" else [], "prefix": text[:k][-40:],
+                     "nested": nested})
     a = {k: v for k, v in r.items() if k != "ast"}
     a["text"] = text
     return {"id": rid, "item": a, "init": {"x": 0}, "steps": [{"a": dict(r), "out": "ok", "post": {"cuts": cuts}}]}
